@@ -35,6 +35,13 @@ func DeepCopy(node Node, document *Document) Node {
 	// example, husband, wife and child nodes.
 	var family *FamilyNode
 
+	// A husband, wife or child node can also be copied on its own (MergeNodes
+	// does this for the children of a family). It cannot be created without a
+	// family so start with the family it belongs to.
+	if familyNoder, ok := node.(FamilyNoder); ok {
+		family = familyNoder.Family()
+	}
+
 	return Filter(node, document, func(node Node) (newNode Node, traverseChildren bool) {
 		if fam, ok := node.(*FamilyNode); ok {
 			family = fam
